@@ -364,4 +364,45 @@ void h_col_statistics(void)
   VC_CHECK("Matrixnorm == sqrt(sum of squared cells)", VC_SAME(nrm, h_nrm));
   VC_REACH();
 }
+/* the same column statistics with one missing-coded row: the statistics are those of the remaining rows
+ * (VC_M rows, row VC_MISSROW missing-coded in every column; VC_M - 1 must be 2 for exact instances) */
+#ifndef VC_MISSROW
+#define VC_MISSROW 0
+#endif
+void h_col_statistics_missing(void)
+{
+  matrix *m;
+  dvector *avg, *var, *sd, *rms;
+  double cell[GMAX][GMAX];
+  NewMatrix(&m, VC_M, VC_N);
+  for(size_t i = 0; i < VC_M; i++)
+    for(size_t j = 0; j < VC_N; j++)
+      cell[i][j] = m->data[i][j] = (i == VC_MISSROW) ? (double)MISSING : small_cell();
+  initDVector(&avg); initDVector(&var); initDVector(&sd); initDVector(&rms);
+  MatrixColAverage(m, avg);
+  MatrixColVar(m, var);
+  MatrixColSDEV(m, sd);
+  MatrixColRMS(m, rms);
+  VC_CHECK("column statistics: one entry per column", avg->size == VC_N && var->size == VC_N && sd->size == VC_N && rms->size == VC_N);
+  const double n = (double)(VC_M - 1); /* rows that are not missing-coded */
+  for(size_t j = 0; j < VC_N; j++) {
+    double s = 0, q = 0, v = 0;
+    for(size_t i = 0; i < VC_M; i++)
+      if(i != VC_MISSROW) {
+        s += cell[i][j];
+        q += cell[i][j] * cell[i][j];
+      }
+    double a = s / n;
+    for(size_t i = 0; i < VC_M; i++)
+      if(i != VC_MISSROW)
+        v += (cell[i][j] - a) * (cell[i][j] - a);
+    v = v / (n - 1);
+    VC_CHECK("MatrixColAverage ignores missing-coded cells: sum / count of the others", avg->data[j] == a);
+    VC_CHECK("MatrixColVar ignores missing-coded cells: sum (x - mean)^2 / (count - 1) over the others", var->data[j] == v);
+    double h_sd = sqrt(v), h_rms = sqrt(q / n);
+    VC_CHECK("MatrixColSDEV ignores missing-coded cells", VC_SAME(sd->data[j], h_sd));
+    VC_CHECK("MatrixColRMS ignores missing-coded cells", VC_SAME(rms->data[j], h_rms));
+  }
+  VC_REACH();
+}
 #endif
